@@ -408,7 +408,7 @@ Proof.
   { unfold s2. destruct (Nat.eqb_spec x o).
     - subst. rewrite objs_mod_same. unfold safe_discard. rewrite objs_mod_same. split; [reflexivity|congruence].
     - rewrite objs_mod_other by auto. unfold safe_discard. rewrite objs_mod_other by auto. auto. }
-  destruct (mem o E); [exact A|].
+  destruct (mem o E); [auto|].
   rewrite im_replace_objs. destruct A as [A1 A2].
   destruct (Nat.eqb_spec x o).
   - subst. cbn. split; [exact A1|congruence].
@@ -731,7 +731,7 @@ Section FinalCompute.
       { assert (PE : forall z, P2 [] ksR s2 z = P2R z).
         { intros z. unfold P2, P2R, ksR. rewrite (ks_find_map (fun o => (ikof o, ikof o))). destruct (mem z other); reflexivity. }
         intros a b. rewrite !PE. rewrite A1. apply Hinj. }
-      destruct (phase2_char [] ksR s2 Hinj') as [_ PC]. unfold all_objs in PC. rewrite A1 in PC. fold n in PC.
+      destruct (phase2_char [] ksR s2 (fun x0 (Hx0 : mem x0 [] = true) => False_ind _ (Bool.diff_false_true Hx0)) Hinj') as [_ PC]. unfold all_objs in PC. rewrite A1 in PC. fold n in PC.
       rewrite PC.
       - unfold P2, P2R, ksR. rewrite (ks_find_map (fun o => (ikof o, ikof o))). destruct (mem x other); reflexivity.
       - destruct (Nat.lt_ge_cases x n); auto. right. unfold ksR. rewrite (ks_find_map (fun o => (ikof o, ikof o))).
@@ -930,7 +930,7 @@ Section FlushSem.
   Proof.
     intros x H. apply other_spec in H.
     assert (Hn' : In x new -> x < n /\ oatt (objs s1 x) = true /\ odelf (objs s1 x) = false /\ okey (objs s1 x) = None /\ oin (objs s1 x) = false).
-    { intros X. pose proof (g_newd _ _ _ _ _ G1 x X) as D. apply (g_new _ _ _ _ _ G1) in X. destruct X as [A [B C]].
+    { intros X. apply (g_new _ _ _ _ _ G1) in X. destruct X as [A [B C]]. pose proof (g_newd _ _ _ _ _ G1 x A B) as D.
       repeat split; auto. destruct (oin (objs s1 x)) eqn:E; auto.
       destruct (g_in _ _ _ _ _ G1 x E) as [_ [_ [_ Y]]]. congruence. }
     destruct (in_dec Nat.eq_dec x new) as [Hi|Hi].
@@ -1005,7 +1005,12 @@ Section FlushSem.
           * rewrite (Crest x Ed Eo) in *.
             assert (In x new) by (apply (g_new _ _ _ _ _ G1); auto).
             assert (mem x other = true) by (apply other_spec; auto). congruence.
-      - intros x [].
+      - intros x Hn Hk. destruct (mem x deleted) eqn:Ed.
+        + exfalso. destruct (Cdel x Ed) as [E [X _]]. rewrite E in Hk. cbn in Hk.
+          destruct (g_in _ _ _ _ _ G1 x X) as [_ [_ [_ Y]]]. congruence.
+        + destruct (mem x other) eqn:Eo.
+          * destruct (Coth x Eo) as [E _]. rewrite E in Hk. discriminate.
+          * rewrite (Crest x Ed Eo) in *. apply (g_newd _ _ _ _ _ G1 x Hn Hk).
       - intros x [].
       - split; constructor.
       - (* deleted state: the row is gone or re-used by an object of the identity map *)
